@@ -193,6 +193,16 @@ impl Mut {
 
 fn changed(v: &J, variant: u8) -> J {
     match v {
+        J::S(s) if variant == 2 => {
+            // a compatibility look-alike: the first ASCII digit becomes its full-width twin
+            match s.char_indices().find(|(_, c)| c.is_ascii_digit()) {
+                Some((i, c)) => {
+                    let twin = char::from_u32(0xFF10 + (c as u32 - '0' as u32)).unwrap();
+                    J::S(format!("{}{}{}", &s[..i], twin, &s[i + 1..]))
+                }
+                None => J::S(format!("{s}\u{b2}")),
+            }
+        }
         J::S(s) => {
             let hexlike = s.len() >= 2 && s.chars().all(|c| c.is_ascii_hexdigit());
             if hexlike {
@@ -251,6 +261,9 @@ fn mutations_of(signed: &J, own_type: &str) -> Vec<Mut> {
                 }
                 v.push(Mut::Scalar(p.clone(), 0));
                 v.push(Mut::Scalar(p.clone(), 1));
+                if matches!(node, J::S(s) if s.chars().any(|c| c.is_ascii_digit())) {
+                    v.push(Mut::Scalar(p.clone(), 2));
+                }
             }
         }
     }
@@ -899,7 +912,7 @@ pub fn run(cfg: &Cfg) -> i32 {
         ev,
         Finish {
             level: "exploration",
-            rule: "for each role type (root at a rotation hop, timestamp, snapshot, targets, two delegated roles) a validly signed document carrying unknown members at every level tough carries along; EVERY single-point mutation of its signed portion is enumerated from the JSON tree (each scalar changed in two ways, each member deleted / duplicated first / duplicated last, a member inserted into every object, next to every member a twin whose name differs by a trailing backslash, each array element deleted / duplicated, arrays re-ordered / extended, the type tag swapped to each other type), served in place, and the real client's outcome recorded: accepted => the Serialize view AND typed accessors of what the client exposes must equal the signed content (canonical comparison). On top of the complete single-point space, seeded compositions of two or three mutations (each drawn from the mutation space of the already mutated document) are judged the same way. Benign rewrites (compact, \\u escapes, shuffled members, extra signature entries, extra envelope member) must stay acceptable; optional/unknown members a conforming signer may write (inside delegations, role entries, empty custom) must stay acceptable; documents swapped between roles sharing one key must be refused. Fingerprint = (role, mutation kind, JSON path class, detail).",
+            rule: "for each role type (root at a rotation hop, timestamp, snapshot, targets, two delegated roles) a validly signed document carrying unknown members at every level tough carries along; EVERY single-point mutation of its signed portion is enumerated from the JSON tree (each scalar changed in two ways, strings with a digit also to a compatibility look-alike, each member deleted / duplicated first / duplicated last, a member inserted into every object, next to every member a twin whose name differs by a trailing backslash, each array element deleted / duplicated, arrays re-ordered / extended, the type tag swapped to each other type), served in place, and the real client's outcome recorded: accepted => the Serialize view AND typed accessors of what the client exposes must equal the signed content (canonical comparison). On top of the complete single-point space, seeded compositions of two or three mutations (each drawn from the mutation space of the already mutated document) are judged the same way. Benign rewrites (compact, \\u escapes, shuffled members, extra signature entries, extra envelope member) must stay acceptable; optional/unknown members a conforming signer may write (inside delegations, role entries, empty custom) must stay acceptable; documents swapped between roles sharing one key must be refused. Fingerprint = (role, mutation kind, JSON path class, detail).",
             assumptions: vec![
                 "'identical to what the signers signed' is judged on the canonical form (NFC respelling is an observation, not a violation)".into(),
                 "the `roles` map of root is not extended with unknown roles (the TUF specification fixes its member set)".into(),
